@@ -20,15 +20,28 @@ use std::task::{Context, Poll};
 #[derive(Debug, Default)]
 pub struct Chunks(pub VecDeque<Vec<u8>>);
 
+/// flag on a chunk size: an empty chunk follows every chunk (transports may deliver those)
+pub const WITH_EMPTY_CHUNKS: usize = 1 << 24;
+
 impl Chunks {
     pub fn of(bytes: Vec<u8>, chunk: usize) -> Chunks {
         if bytes.is_empty() {
             return Chunks(VecDeque::new());
         }
-        if chunk == 0 {
+        let empties = chunk & WITH_EMPTY_CHUNKS != 0;
+        let chunk = chunk & !WITH_EMPTY_CHUNKS;
+        if chunk == 0 && !empties {
             return Chunks(VecDeque::from(vec![bytes]));
         }
-        Chunks(bytes.chunks(chunk).map(|c| c.to_vec()).collect())
+        let size = if chunk == 0 { bytes.len() } else { chunk };
+        let mut out = VecDeque::new();
+        for c in bytes.chunks(size) {
+            out.push_back(c.to_vec());
+            if empties {
+                out.push_back(vec![]);
+            }
+        }
+        Chunks(out)
     }
     pub fn concat(self) -> Vec<u8> {
         self.0.into_iter().flatten().collect()
